@@ -100,6 +100,11 @@ CHECKS = {
    text="Every document of <= 3 distinct id-carrying elements below the root (g, nested svg, defs, rect, circle, path, polyline, image, use of group/shape) x every applicable fault on every element including the root: unclosed / unknown / under-supplied / unit-bearing transform functions, bad colours, garbage style text, garbage and negative lengths, truncated / short-arc / move-less / garbage path data, odd and garbage point lists, garbage and short viewBox, garbage preserveAspectRatio, bad image data, dangling, self and ancestor use references (two simultaneous faults in the thorough tier). SVG.parse must return within the time limit without any exception, and every shape outside the faulty elements' subtrees must be exactly what the fault-free remainder renders (ids, order, geometry).",
    note="Trusted: TLC, DocFault/DocCore.tla, the fault text table, XML serialisation. Faults in style-sheet text and ill-formed XML are excluded by the property. Shapes defined inside a faulty container but rendered through a use outside it are left open.",
    design="5/C10"),
+ "C20": dict(
+   technique="DocCore/DocPaint documents (TLC-enumerated, WriterLaw invariant: ctm * inverse(viewport) re-rendered inside the viewport is ctm) written by the real writer in every mode, checked for well-formedness, re-parsed and compared with the source tree; constructor-built trees from the spec's rendered shapes; second generation compared with the first",
+   text="Every 17th (quick) / 3rd (thorough) rendering geometry document of MC_C03 with its caller configuration and every 3rd paint document of MC_C14, parsed with reify True/False, written with string_xml, write_xml .svg and .svgz, read back (ElementTree well-formedness, then SVG.parse with reify True/False): same shape classes in the same order, sampled absolute geometry within the six-decimal matrix precision, same fill/stroke RGBA, effective stroke width and ids; write(parse(write(x))) renders like write(x). Built trees: Path shapes with full transforms (both determinant signs), paints incl. fully transparent colours, with and without viewBox.",
+   note="Trusted: TLC, DocCore family, the sampling comparator (5 points per segment). The reference is the source tree's own rendering (its agreement with the spec is C03/C14). text/image payloads and pretty-printing whitespace are not compared.",
+   design="5/C20"),
 }
 NOT_BUILT = "check not built yet (planned: DESIGN.md section 5)"
 
